@@ -312,7 +312,10 @@ def static_events(case, t, k, sim, rng, want, build_opts=None, solve_opts=None, 
             if pre.get("ignore_four") is not None:
                 pkw["metadata"] = {"ignore_four": True} if pre["ignore_four"] else {}
             forsys.build_force_matrix(when=0, **pkw)
-        if build_opts.get("no_metadata") and not ign4 and lim_kind == "pi" and build_opts.get("default_limit_kwarg", True):
+        if build_opts.get("via_sysvel") and not ign4 and fit == "dlite":
+            # the matrix that get_system_velocity_per_frame(angle_limit=...) generates as a documented side effect
+            forsys.get_system_velocity_per_frame(time_interval=[0], angle_limit=lim)
+        elif build_opts.get("no_metadata") and not ign4 and lim_kind == "pi" and build_opts.get("default_limit_kwarg", True):
             # the default limit through the default argument (no angle_limit keyword at all)
             forsys.build_force_matrix(when=0, circle_fit_method=fit)
         elif build_opts.get("no_metadata") and not ign4:
